@@ -34,6 +34,9 @@ def _free_names(e):
 
 
 def run(repo, rep, tier):
+    rep.rule("R-C16-5", "every parameter of the functions behind this property is read (smoothing): none is accepted and then ignored")
+    from .shared import unused_parameters
+    unused_parameters(repo, rep, "R-C16-5", ("wavespectra.core.utils.smooth_spec", "wavespectra.specarray.SpecArray.smooth"), "smoothing")
     rep.rule("R-C16-1", "both window sizes are tested for evenness and ValueError is raised before any data operation")
     rep.rule("R-C16-2", "circular padding: last bins relabelled -360 in front, first bins +360 behind, width derived from the "
                         "DIRECTION window, only under the circularity test |max - min + dd - 360| < 0.1 dd")
